@@ -810,9 +810,6 @@ static void segv_handler(int sig, siginfo_t *si, void *ctx)
 	int idx;
 	int i;
 
-	/* set line buffer mode not to discard crash message */
-	setlinebuf(outfp);
-
 	mtdp = get_thread_data();
 	if (check_thread_data(mtdp))
 		goto out;
@@ -873,8 +870,13 @@ static void segv_handler(int sig, siginfo_t *si, void *ctx)
 		rstack--;
 	}
 
-	pr_out("\n");
-	pr_red(BUG_REPORT_MSG);
+	/*
+	 * the report goes to the log stream only: stdout belongs to the traced
+	 * program (writing there also flushed what the program had left in
+	 * its buffer when it called abort()).
+	 */
+	pr_warn("\n");
+	pr_warn("%s", BUG_REPORT_MSG);
 
 out:
 	sigaction(sig, &old_sigact[(sig == SIGSEGV)], NULL);
